@@ -25,6 +25,8 @@ Print Assumptions C38_stream_ids.
 (** The facts regenerated from the source on this run are the model's. *)
 Theorem C38_source_facts :
   gen_start_dialer = start Dialer /\ gen_start_acceptor = start Acceptor /\
-  gen_delta = delta /\ gen_next_is_single_atomic_add = true /\ gen_return_adjust = delta.
+  gen_delta = delta /\ gen_next_is_single_atomic_add = true /\ gen_return_adjust = delta /\
+  gen_conn_alloc_in_constructor = true /\ gen_conn_next_delegates = true /\
+  gen_conn_alloc_reassigned = false.
 Proof. repeat split; reflexivity. Qed.
 Print Assumptions C38_source_facts.
